@@ -13,7 +13,7 @@ git checkout -q -- .
 PYTHONPATH=$wt/src timeout 900 /venv/bin/python "$out/demo_$i.py" > /tmp/confirm.$$.demo0 2>&1; d0=$?
 echo "suite with patch: $suite (FAILED lines: $failed)"; grep "^FAILED\|^ERROR" /tmp/confirm.$$.suite
 echo "demo with patch exit=$d1, without exit=$d0"
-cd /verif
+cd "${SEED_VERIF:-/verif}"
 res=$(harness/seedtest.sh "$out/patch_$i.diff" "$prop" 2>&1)
 echo "$res"
 mkdir -p "$dest"
